@@ -78,6 +78,12 @@ def ll_sliver(x):
     return float(-0.5 * np.sum((x + 9.0) ** 2) / 4.0)
 
 
+def ll_sharp(x):
+    """Very narrow Gaussian (1% of the prior width): importance weights of prior-like particles underflow to exactly 0."""
+    x = np.asarray(x, dtype=float)
+    return float(-0.5 * np.sum((x - 1.0) ** 2) / 0.04)
+
+
 def ll_weak(x):
     """Nearly flat likelihood: the schedule jumps from beta=0 to 1 in one step."""
     x = np.asarray(x, dtype=float)
